@@ -266,7 +266,10 @@ afterwards):
   (it is in the CA's state under the sender's name afterwards), with resources inside the
   sender's entitlement and inside the class;
 * **revoke**: the reply confirms the key of the request; either the class is unknown and nothing
-  was done (beyond un-suspending the sender), or the key is one the sender has in use. -/
+  was done (beyond un-suspending the sender), or the key is one the sender has in use, or (since
+  fix 7be8c4c6) it is one the sender HAD in use and this CA revoked itself (marked revoked before
+  the request, or dropped by the un-suspension of this very request) – then nothing is done
+  either.  In every case the key is the sender's own. -/
 theorem acts_for_sender_by_kind (decode : Bytes → Option (Signed Msg)) (ca : Ca) (bytes : Bytes)
     (m : Signed Msg) (h : (rfc6492 decode ca bytes).2 = .replied m) :
     ∃ sg c, decode bytes = some sg ∧ lookup ca.children sg.body.sender = some c ∧
@@ -287,7 +290,8 @@ theorem acts_for_sender_by_kind (decode : Bytes → Option (Signed Msg)) (ca : C
       | .revoke cls key =>
         m.body.payload = .revokeResponse cls key ∧
           ((lookup ca.classes cls = none ∧ (c.suspended = false → (rfc6492 decode ca bytes).1 = ca)) ∨
-            c.inUse.any (·.1 == key) = true)
+            c.inUse.any (·.1 == key) = true ∨
+            (c.revoked.contains key = true ∧ (c.suspended = false → (rfc6492 decode ca bytes).1 = ca)))
       | _ => False := by
   have g := rfc6492_gate decode ca bytes
   generalize rfc6492 decode ca bytes = r at g h
@@ -309,7 +313,7 @@ theorem acts_for_sender_by_kind (decode : Bytes → Option (Signed Msg)) (ca : C
         rw [hr] at h ⊢
         simp only [Out.replied.injEq] at h
         subst h
-        obtain ⟨X, cX, hdis, hcl, hres, hin, hns, _⟩ :=
+        obtain ⟨X, cX, hdis, hcl, hres, hin, hns, _, hrevk⟩ :=
           processRequest_replied ca sg.body.sender c sg.body.payload ca2 p hdp
         have hrep := dispatch_reply X sg.body.sender cX sg.body.payload p ca2 hdis
         cases hpl : sg.body.payload with
@@ -338,11 +342,15 @@ theorem acts_for_sender_by_kind (decode : Bytes → Option (Signed Msg)) (ca : C
           simp only [ReplyFor] at hrep
           obtain ⟨e1, e2⟩ := hrep
           refine ⟨e1, ?_⟩
-          rcases e2 with ⟨a, b⟩ | b
+          rcases e2 with ⟨a, b⟩ | b | ⟨a, b⟩
           · left; exact ⟨hcl ▸ a, fun hx => by rw [b]; exact (hns hx).1⟩
-          · right
+          · right; left
             obtain ⟨ku, hku, hk⟩ := List.any_eq_true.mp b
             exact List.any_eq_true.mpr ⟨ku, hin ku hku, hk⟩
+          · right
+            rcases hrevk key (List.contains_iff_mem.mp a) with hk | ⟨ku, hku, hk⟩
+            · right; exact ⟨List.contains_iff_mem.mpr hk, fun hx => by rw [b]; exact (hns hx).1⟩
+            · left; exact List.any_eq_true.mpr ⟨ku, hku, by simp [hk]⟩
         | listResponse x => rw [hpl] at hrep; exact hrep
         | issueResponse x y z => rw [hpl] at hrep; exact hrep
         | revokeResponse x y => rw [hpl] at hrep; exact hrep
